@@ -46,6 +46,8 @@ impl LocalKey {
         let (ek, n2) = kdf::<U48>(&self.0, b"paseto-encryption-key", nonce).split();
         let ak: GenericArray<u8, U48> = kdf(&self.0, b"paseto-auth-key-for-aead", nonce);
 
+        #[cfg(paseto_verif)]
+        let n2 = crate::verif::ctr_block(n2);
         let cipher = ctr::Ctr128BE::<aes::Aes256>::new(&ek, &n2);
         let mac = hmac::Hmac::new_from_slice(&ak).expect("key should be valid");
         (cipher, mac)
